@@ -2558,7 +2558,7 @@ var verifCorpusDetModes = []string{"-i", "--suggest", "--hover", "--llm-nav", "-
 // repository's example programs.
 func VerifCorpusDeterminism(n int) {
 	src, name := verifCorpusPick()
-	verifapi.Assume(verifCountLines(src) <= 25) // two analyses and a schedule variable per range statement: short examples only
+	verifapi.Assume(verifCountLines(src) <= 10) // two analyses and a schedule variable per range statement: short examples only
 	mi := verifapi.Concrete(verifapi.Int("mode", 0, len(verifCorpusDetModes)-1))
 	verifDetRun(src, "example-"+name, verifCorpusDetModes[mi])
 }
